@@ -6,12 +6,13 @@ confirmed (demo passes on the clean tree, fails with the change, existing suite 
 change) are kept."""
 import json, os, re, shutil, sys, glob
 
-MUT = "/tmp/mut"
+MUT = os.environ.get("MUT_ROOT", "/tmp/mut")
+ROUND = os.environ.get("MUT_ROUND", "1")
 OUT = "/verif/seeded"
 
 def load_confirm():
     res = {}
-    for f in sorted(glob.glob("/verif/selftest/logs/confirm*.log")):
+    for f in sorted(glob.glob("/verif/selftest/logs/confirm[0-9]*.log") if ROUND == "1" else glob.glob(f"/verif/selftest/logs/confirm-r{ROUND}-*.log")):
         for line in open(f):
             line = line.strip()
             if line.startswith("{"):
@@ -25,7 +26,7 @@ def load_confirm():
 def load_runs():
     """latest outcome per (mutant, check) wins; all runs kept in 'history'"""
     res = {}
-    for f in sorted(glob.glob("/verif/selftest/logs/mutrun*.log")):
+    for f in sorted(glob.glob("/verif/selftest/logs/mutrun[0-9]*.log") if ROUND == "1" else glob.glob(f"/verif/selftest/logs/mutrun-r{ROUND}-*.log")):
         cur = None
         for line in open(f):
             m = re.match(r"=== (C\d+) mutant(\d)", line)
@@ -47,7 +48,7 @@ def main():
         src = f"{MUT}/{pid}/_out"
         if not ok or not os.path.exists(f"{src}/mutant{n}.diff"):
             continue
-        d = f"{OUT}/{pid}-{n}"
+        d = f"{OUT}/{pid}-{n}" if ROUND == "1" else f"{OUT}/{pid}-r{ROUND}-{n}"
         os.makedirs(d, exist_ok=True)
         shutil.copy(f"{src}/mutant{n}.diff", f"{d}/patch.diff")
         if os.path.exists(f"{src}/demo{n}.rs"):
@@ -79,7 +80,10 @@ def main():
             "how_checks_were_run": "selftest/run_mutant.sh: git -C /repo apply patch.diff; ./check <ID> quick (seed 1, evidence redirected to scratch); git -C /repo checkout -- .",
         }
         json.dump(meta, open(f"{d}/meta.json", "w"), indent=1)
-        kept.append((pid, n, checks))
+        kept.append((pid, n if ROUND == "1" else f"r{ROUND}-{n}", checks))
+    if not kept:
+        print("nothing collected (sources gone?) - existing files left untouched")
+        return
     # matrix for DESIGN.md
     lines = ["| seeded change | own check | other checks that also caught it | missed by |", "|---|---|---|---|"]
     for pid, n, checks in kept:
@@ -90,7 +94,7 @@ def main():
         others = [k for k, v in checks.items() if k != pid and v["latest"] == "CAUGHT"]
         missed = [k for k, v in checks.items() if k != pid and v["latest"] == "MISSED"]
         lines.append(f"| {pid}-{n} | {own} | {' '.join(sorted(others)) or '-'} | {' '.join(sorted(missed)) or '-'} |")
-    open(f"{OUT}/MATRIX.md", "w").write("\n".join(lines) + "\n")
+    open(f"{OUT}/MATRIX.md" if ROUND == "1" else f"{OUT}/MATRIX-round{ROUND}.md", "w").write("\n".join(lines) + "\n")
     print("\n".join(lines))
 
 if __name__ == "__main__":
